@@ -130,6 +130,31 @@ Conforms(vocab, T, node) ==
                         /\ SecConvOf(vocab[sc[i].type].datatype,
                                      ValueTree(vocab, vocab[sc[i].type], sc[i].type, sc[i])).ok
 
+-------------------------------------------------------------------------
+(* The handler list (C16), read off the parse tree: the entries of every   *)
+(* nested section in the order the sections are closed in the text, then   *)
+(* the section's own handler-bearing items in schema order, each with the  *)
+(* value the value tree holds for that item.                               *)
+RECURSIVE ConcatAll(_)
+ConcatAll(ss) == IF ss = <<>> THEN <<>> ELSE ss[1] \o ConcatAll(Tail(ss))
+
+RECURSIVE HandlerList(_, _, _, _)
+HandlerList(vocab, T, tname, node) ==
+  LET vt     == ValueTree(vocab, T, tname, node)
+      nested == ConcatAll([i \in Idx(node.secs) |->
+                             HandlerList(vocab, vocab[node.secs[i].type], node.secs[i].type, node.secs[i])])
+      hs     == SortedSeq({c \in Idx(T.children) : T.children[c].handler # ""})
+      own    == [j \in Idx(hs) |-> <<T.children[hs[j]].handler, vt.attrs[hs[j]][2]>>]
+  IN  nested \o own
+
+(* CompositeHandler.__call__ on an abstract handler map: `given` = the      *)
+(* normalised names supplied, `nones` = those mapped to None, `dup` = two   *)
+(* supplied names normalise to the same key.  Returns the indices of the    *)
+(* entries called, in order, or a refusal without any call.                 *)
+CallOutcome(hl, given, nones, dup) ==
+  IF dup \/ (\E k \in Idx(hl) : hl[k][1] \notin given) THEN [r |-> "err", calls |-> <<>>]
+  ELSE [r |-> "ok", calls |-> SortedSeq({k \in Idx(hl) : hl[k][1] \notin nones})]
+
 RECURSIVE HasUnspecified(_, _, _)
 HasUnspecified(vocab, T, node) ==
   \E i \in Idx(node.secs) :
